@@ -42,7 +42,8 @@ CONSTANTS Handles,     \* set of handle ids (naturals; 0 = connection handle, ne
           High, Low,   \* water marks (bytes), Low <= High
           Accept,      \* accept sizes the transport may choose (besides "all that is offered")
           SealAt,      \* frame id whose pull seals the buffer (<<-9, -9>>: none)
-          BugDrainWrong, BugLowWaterStrict, BugNoRereg
+          BugDrainWrong, BugLowWaterStrict, BugNoRereg,
+          BugCloseLeaves \* the Close does not take in what the other handles' queues hold (before repair 9d1e86f)
 
 -----------------------------------------------------------------------------
 (* Pure operators (also used by the trace specification WireTrace)         *)
@@ -152,18 +153,29 @@ Poll ==
     /\ UNCHANGED <<issued, q, pulled, dropped, outbuf, wire, pos, wlen, listening, registered,
                    sealed, writable>>
 
+\* what the queues of the handles in S hold, handle by handle in ascending order, as frame ids
+RECURSIVE Queued(_)
+Queued(S) == IF S = {} THEN <<>>
+             ELSE LET g == CHOOSE x \in S : \A y \in S : x <= y
+                  IN [i \in 1..Len(q[g]) |-> <<g, q[g][i]>>] \o Queued(S \ {g})
+
 Pull(h) ==
     /\ pc = "events" /\ h \in batch /\ h # WSrc
     /\ q[h] # <<>> /\ took[h] <= MemBound          \* A18
-    /\ LET f == <<h, Head(q[h])>> IN
+    /\ LET f == <<h, Head(q[h])>>
+           \* process_channel_message(ConnectionClose): before the Close is appended and the buffer sealed,
+           \* whatever the other handles have handed over is taken in - listened to or not
+           closing == ~sealed /\ f = SealAt /\ ~BugCloseLeaves
+           before == IF closing THEN Queued(Handles \ {h}) ELSE <<>>
+       IN
        /\ IF sealed
           THEN /\ dropped' = dropped \cup {f}
                /\ UNCHANGED <<outbuf, pulled>>
-          ELSE /\ outbuf' = outbuf \o Toks(f)
-               /\ pulled' = Append(pulled, f)
+          ELSE /\ outbuf' = outbuf \o Flat(before) \o Toks(f)
+               /\ pulled' = pulled \o before \o <<f>>
                /\ dropped' = dropped
        /\ sealed' = (sealed \/ f = SealAt)
-    /\ q' = [q EXCEPT ![h] = Tail(@)]
+       /\ q' = [g \in Handles |-> IF g = h THEN Tail(q[h]) ELSE IF closing THEN <<>> ELSE q[g]]
     /\ took' = [took EXCEPT ![h] = @ + 1]
     /\ UNCHANGED <<issued, wire, pos, wlen, pc, batch, listening, registered, writable>>
 
@@ -275,13 +287,18 @@ Boundary == /\ wire # <<>> => wire[1] = <<HdrId, 1>>
 
 \* buffered bytes stay within high water + one wake-up's intake (+ what handle 0, which is
 \* never throttled, sends)
+\* (the Close takes in one more queue-full per handle)
 Bound == Len(outbuf) <= BoundBytes(Max2(High, HdrLen), Cardinality(NonZero), MemBound, MaxFrame, Ch0Bytes)
+                        + (IF sealed THEN Cardinality(NonZero) * MemBound * MaxFrame ELSE 0)
 
 \* while throttled nothing is taken from a non-zero handle
 Throttled == (pc = "events" /\ ~registered) => \A h \in NonZero : took[h] = 0
 
 \* the loop's belief and the registration agree whenever it polls
 RegSync == pc = "poll" => (listening = registered)
+
+\* when the buffer becomes sealed nothing that was handed over before is left behind (it would be discarded)
+SealTakesAll == [][(~sealed /\ sealed') => \A g \in Handles : q'[g] = <<>>]_vars
 
 \* nothing is discarded unless the buffer was sealed
 DropsOnlySealed == dropped # {} => sealed
